@@ -156,6 +156,12 @@ void ParseBoostArgs(int restricted_argc, int real_argc, char *argv[], Options &o
     exit(1);
   }
   po::notify(vm);
+  // hardware_concurrency() may be 0 when it cannot be determined.
+  if (vm["jobs"].defaulted() && !out.workers) out.workers = 1;
+  if (!out.workers) {
+    std::cerr << "The number of workers (-j) must be at least 1.\n";
+    exit(1);
+  }
 }
 
 // Figuring out where the command line for the child is.
